@@ -2,6 +2,7 @@
   Helper lemmas for C02: the exported line of a row that fits (`Gen.data2pdb_line`) as segments, its column
   layout against `Spec.lineFailures`, and reading it back with `Spec.parseRecord`.  Helper lemmas only.
 -/
+import Mathlib.Tactic.SplitIfs
 import Mathlib.Tactic.Linarith
 import Mathlib.Tactic.NormNum
 import Mathlib.Tactic.FieldSimp
@@ -28,23 +29,18 @@ open Py
 theorem atomname_shape (d : Atom) (h1 : 1 ≤ d.name.length) :
     ∃ nm, Gen._format_atomname d = .ok nm ∧
       (nm = center 4 d.name ∨ nm = ljust 4 d.name ∨ nm = rjust 4 d.name) := by
+  -- written so as not to depend on the order or nesting of the branches of the translated function:
+  -- unfold, evaluate `name[0]` (defined because the name is non-empty), split every `if`, close each leaf
   unfold Gen._format_atomname Py.len
-  by_cases c1 : ((d.name.length : Int) = 1 ∨ (d.name.length : Int) = 4)
-  · simp only [c1, if_true, pure, Except.pure]; exact ⟨_, rfl, Or.inl rfl⟩
-  · simp only [c1, if_false]
-    by_cases c2 : ((d.name.length : Int) = 2)
-    · simp only [c2, if_true]
-      by_cases c3 : d.name = d.element
-      · simp only [c3, if_true, pure, Except.pure]; exact ⟨_, rfl, Or.inr (Or.inl rfl)⟩
-      · simp only [c3, if_false, pure, Except.pure]; exact ⟨_, rfl, Or.inl rfl⟩
-    · simp only [c2, if_false]
-      match hn : d.name, h1 with
-      | c :: r, _ =>
-        have : Py.getItem1 (c :: r) (0 : Int) = .ok [c] := rfl
-        simp only [this, bind, Except.bind, pure, Except.pure]
-        split
-        · exact ⟨_, rfl, Or.inr (Or.inl rfl)⟩
-        · exact ⟨_, rfl, Or.inr (Or.inr rfl)⟩
+  match hn : d.name, h1 with
+  | c :: r, _ =>
+    have g : Py.getItem1 (c :: r) (0 : Int) = .ok [c] := rfl
+    simp only [g, bind, Except.bind, pure, Except.pure]
+    split_ifs <;>
+      first
+        | exact ⟨_, rfl, Or.inl rfl⟩
+        | exact ⟨_, rfl, Or.inr (Or.inl rfl)⟩
+        | exact ⟨_, rfl, Or.inr (Or.inr rfl)⟩
 
 theorem mem_pad {c : Char} {w : Nat} {s nm : Str}
     (h : nm = center w s ∨ nm = ljust w s ∨ nm = rjust w s) (hc : c ∈ nm) : c = ' ' ∨ c ∈ s := by
